@@ -40,3 +40,5 @@ META = dict(
                 "than being hidden), snprintf as the reference for the formatted message. Interleavings are sampled."),
     technique="runtime monitoring: writer-log checker (exactly-once, order, format, no-late-write) + allocator balance + TSan/ASan/LSan under schedule perturbation",
 )
+
+CFG["rule"] += (" " + "Additions: 14 harness-registered subjects with names of 1-300 characters; a third of the scenarios have a writer that fails every 7th write; one call in 25 cannot be formatted (%ls, C locale); every timestamp is decoded as UTC and compared with the time of the call (TSan stages run with TZ=XYZ-9); the truncation stage also drives the standard logger over the library's file writer and the no-alloc logger over a stream that refuses writes; stage thr_tsanrel (-O2 under TSan).")
